@@ -45,7 +45,7 @@ Record txn := { t_handle : Z; t_calls : list call; t_end : tend }.
 
 (* result tags of a call: 0 accepted; 1..4 as Schema.outcome for records; 6 append_files refused *)
 Definition tag_of (o : outcome) : Z :=
-  match o with Accepted => 0 | RejNoSchema => 1 | RejSchema => 2 | RejRecords => 3 | RejConvert => 4 | RejCommit => 5 end.
+  match o with Accepted => 0 | RejNoSchema => 1 | RejSchema => 2 | RejRecords => 3 | RejConvert => 4 | RejCommit => 5 | RejFile => 6 end.
 Definition tag_files_refused : Z := 6.
 Definition tag_storage_fault : Z := 7.
 
